@@ -49,11 +49,15 @@ def ladderStep (st : Pt α × Pt α) (bit : Nat) : Pt α × Pt α :=
 def ladder (e : Pt α) (bits : List Nat) : Pt α :=
   (bits.reverse.foldl (ladderStep F) (identity F, e)).1
 
+/-- body of `multiply` given the outcome of `s.IsOne()` and the bit expansion `s.Bits()` -/
+def multiplyCore (e : Pt α) (one : Bool) (bits : List Nat) : Pt α :=
+  if one then e else ladder F e bits
+
 /-- `Multiply`: nil scalar -> identity; scalar one -> receiver unchanged; else the ladder -/
 def multiply (e : Pt α) (k : Option L4) : Pt α :=
   match k with
   | none => identity F
-  | some s => if Hand.Scalar.isOne s then e else ladder F e (Hand.Scalar.bits s)
+  | some s => multiplyCore F e (Hand.Scalar.isOne s) (Hand.Scalar.bits s)
 
 end Hand.Element
 
@@ -79,10 +83,11 @@ def encode (e : P4) : Bytes :=
   let body := if FiatField.isZero isId = 1 then Hand.Fp.bytes a.x else List.replicate 32 0
   (pre :: body).take (ctSelect isId 1 33)
 
-/-- pinned-tree behaviour: no identity special case -/
 def encodeUncompressed (e : P4) : Bytes :=
+  let isId := F.isZero e.z
   let a := Curve.affine F e
-  4 :: (Hand.Fp.bytes a.x ++ Hand.Fp.bytes a.y)
+  let pre := ctSelect isId 0 4
+  (pre :: (Hand.Fp.bytes a.x ++ Hand.Fp.bytes a.y)).take (ctSelect isId 1 65)
 
 def xCoordinate (e : P4) : Bytes := (encode e).drop 1
 
